@@ -215,6 +215,8 @@ def render(items, ext, variant=0, crlf=False, multibyte=False, tag_attrs=None, b
     tagpos = {}         # (item, pos) -> (line idx, col)
     sidx = 0
     note = "nöte" if multibyte else "note"
+    if variant % 6 == 4 and not bare:
+        note = "a < b"          # a stray '<' before (and after) the tags in the same comment
     md = ext in ("md", "markdown")
     # (Markdown used to pair link-reference comments and HTML comments on separate stacks -- finding M1,
     # repaired in /repo -- so Markdown files now mix all four comment forms freely.)
